@@ -17,6 +17,11 @@ pub enum NsStyle {
     InParent,
     /// nameserver names in the unrelated sibling zone `s.`, no glue
     Sibling,
+    /// the zone is served by the sibling zone's *own* nameserver `ns1.s.`
+    /// (one host, whatever `ns_count` says): looking its address up is
+    /// answered by the root's referral for `s.`, whose glue is for the very
+    /// name that was asked
+    SiblingApexNs,
 }
 
 #[derive(Debug, Copy, Clone, Eq, PartialEq)]
@@ -52,6 +57,8 @@ pub struct GenParams {
     pub ns_count: Vec<usize>,
     pub send_additional: bool,
     pub chase_in_reply: bool,
+    /// servers list AAAA before A in the additional section
+    pub v6_glue_first: bool,
     /// address family of the servers of each level (index 0 = root, then levels, last = sibling)
     pub families: Vec<Family>,
 }
@@ -64,13 +71,14 @@ impl GenParams {
             ns_count: vec![ns; depth],
             send_additional: true,
             chase_in_reply: false,
+            v6_glue_first: false,
             families: vec![Family::V4; depth + 2],
         }
     }
     pub fn describe(&self) -> String {
         format!(
-            "depth={} styles={:?} ns={:?} additional={} chase={} families={:?}",
-            self.depth, self.styles, self.ns_count, self.send_additional, self.chase_in_reply, self.families
+            "depth={} styles={:?} ns={:?} additional={} chase={} v6first={} families={:?}",
+            self.depth, self.styles, self.ns_count, self.send_additional, self.chase_in_reply, self.v6_glue_first, self.families
         )
     }
 }
@@ -132,9 +140,14 @@ pub const SIB_LEVEL: usize = 9;
 pub fn ns_hosts(p: &GenParams, level: usize) -> Vec<DomainName> {
     let apex = level_apex(level);
     let parent = level_apex(level - 1);
-    let n = p.ns_count[level - 1];
+    let n = if p.styles[level - 1] == NsStyle::SiblingApexNs {
+        1
+    } else {
+        p.ns_count[level - 1]
+    };
     (0..n)
         .map(|k| match p.styles[level - 1] {
+            NsStyle::SiblingApexNs => prepend(b"ns1", &sibling_apex()),
             NsStyle::InZoneGlue => prepend(format!("ns{}", k + 1).as_bytes(), &apex),
             NsStyle::InParent => prepend(
                 format!("ns-{}{}", CHAIN_LABELS[level - 1], k + 1).as_bytes(),
@@ -248,9 +261,18 @@ pub fn build(p: &GenParams) -> Universe {
                         zones[sib_idx].recs.push(r.clone());
                     }
                 }
+                NsStyle::SiblingApexNs => {
+                    // the host and its addresses already exist (sibling zone + root glue)
+                }
             }
-            for a in addrs(fam(level), level, k) {
-                serving.entry(a).or_default().push(level);
+            if p.styles[level - 1] == NsStyle::SiblingApexNs {
+                for a in addrs(sib_fam, SIB_LEVEL, 0) {
+                    serving.entry(a).or_default().push(level);
+                }
+            } else {
+                for a in addrs(fam(level), level, k) {
+                    serving.entry(a).or_default().push(level);
+                }
             }
         }
         // some data in every zone
@@ -286,6 +308,7 @@ pub fn build(p: &GenParams) -> Universe {
         hints: vec![(root_ns, addrs(fam(0), 0, 0))],
         send_additional: p.send_additional,
         chase_in_reply: p.chase_in_reply,
+        v6_glue_first: p.v6_glue_first,
         description: p.describe(),
         forwarder: Some(IpAddr::V4(Ipv4Addr::new(10, 9, 9, 9))),
         silent: Default::default(),
